@@ -191,6 +191,49 @@ def periodic_gaussian_t_profile(pulse_width, period, phase=0, pulse_offset_width
 '''
 
 
+def user_dtype(t, names):
+    """the array's dtype is that of a caller-supplied array/scalar: np.array(p), np.full(n, p), p itself, passed through
+    slicing / meshgrid / reshape / transposition (no arithmetic with floats in between)"""
+    a = t.single_atom()
+    if a is None:
+        return False
+    if a.kind == 'sym':
+        return a.args[0] in names
+    if a.kind == 'sub':
+        return user_dtype(a.args[0], names)
+    if a.kind == 'call':
+        fn, args, kw = a.args
+        if fn in ('array', 'copy', 'reshape', 'T', 'transpose', 'flip', 'repeat', 'tile') and args:
+            return user_dtype(args[0], names) and not any(k == 'dtype' for k, _ in kw)
+        if fn == 'full' and not any(k == 'dtype' for k, _ in kw):
+            fv = dict(kw).get('fill_value')
+            return fv is not None and user_dtype(fv, names)
+        if fn == 'meshgrid':
+            return any(user_dtype(x, names) for x in args)
+    return False
+
+
+def float_valued(t):
+    """contains a true division / float constant / known float-valued function"""
+    for m, c in t.p.items():
+        if c.denominator != 1:
+            return True
+        for a, e in m:
+            if e < 0 or e.denominator != 1:
+                return True
+            if a.kind == 'call' and a.args[0] in ('diff', 'sub_'):
+                pass
+            if a.kind in ('sub', 'call'):
+                for x in a.args:
+                    if isinstance(x, Term) and float_valued(x):
+                        return True
+                    if isinstance(x, tuple):
+                        for y in x:
+                            if isinstance(y, Term) and float_valued(y):
+                                return True
+    return False
+
+
 def configs(tier):
     kinds = ('callable', 'array', 'scalar')
     base = dict(path='callable', t_profile='callable', bp_profile='none', bounding=False, ip=False, it=False, iff=False, sm=False)
@@ -256,6 +299,35 @@ def run(ctx):
             kept.append(o)
         ctx.obligations[n0:] = kept
     T.SYMKIND.clear()
+
+    # ---- D1b in-place accumulation must not inherit the caller's dtype
+    ctx.clause = 'D1b'
+    n_aug = 0
+    for pk in ('array', 'scalar'):
+        T.SYMKIND.clear()
+        T.SYMKIND.update({'path': pk, 't_profile': 'callable'})
+        r, I = ctx.run(fi, args={'integrate_path': FALSE, 'integrate_t_profile': FALSE, 'integrate_f_profile': FALSE,
+                                 'doppler_smearing': TRUE, 'bounding_f_range': NONE, 'bp_profile': NONE}, no_inline=(FR + 'get_index',))
+        for e in I.events:
+            if e.kind == 'store' and e.data.get('target') == 'name' and e.data.get('aug') in ('Add', 'Sub', 'Mult', 'Div') \
+                    and e.func.short == fi.short and e.loops:
+                n_aug += 1
+                old, rhs = e.data['old'], e.data['rhs']
+                # the array updated in place at loop entry: what it was bound to before the loop
+                entry = e.loops[-1].get('env_entry', {}).get(e.data['name'])
+                before = None
+                for ev in I.events:
+                    if ev.kind == 'store' and ev.data.get('target') == 'name' and ev.data.get('name') == e.data['name'] \
+                            and ev.seq < e.seq and not ev.loops:
+                        before = ev.data['value']
+                ud = before is not None and user_dtype(before, {'path', 't_profile', 'BP'})
+                fl = float_valued(rhs)
+                ctx.ob('DTYPE', f'[path given as {pk}] `{e.data["name"]}` is accumulated in place only if its dtype is not the '
+                       'caller\'s (an integer path/profile would make `+= float` raise UFuncTypeError or truncate)', fi,
+                       not (ud and fl), {'accumulator_initialised_as': pretty(before)[:160] if before is not None else None,
+                                         'takes_caller_dtype': ud, 'float_increment': fl, 'increment': pretty(rhs)[:120]}, node=e.node)
+    T.SYMKIND.clear()
+    ctx.require(n_aug >= 2, 'add_signal: in-place accumulations of the smearing loop not found (rule would be vacuous)')
 
     # ---- closed-form families (the shipped path / profile functions)
     ctx.clause = 'D6'
